@@ -3,10 +3,11 @@
    nat stay extracted inductives. No Extract Constant / Extract Inductive of our own. *)
 From Coq Require Extraction.
 From Coq Require Import ExtrOcamlBasic.
-From RN Require Import Base.Bytes Model.Edits Model.Serde Model.StyleDef Model.CaseModel Gen.GenStyles Gen.GenAcronyms Model.Fs Model.ApplyModel Model.UndoModel Model.Patch Model.Lock Model.History Model.Matcher Model.Hunks Model.Renames.
+From RN Require Import Base.Bytes Model.Edits Model.Serde Model.StyleDef Model.CaseModel Gen.GenStyles Gen.GenAcronyms Model.Fs Model.ApplyModel Model.UndoModel Model.Patch Model.Lock Model.History Model.Matcher Model.Hunks Model.Renames Model.ClapDef Model.Clap Model.Wrappers Gen.GenCli Gen.GenWrappers.
 
 (* uniquely named entry points where two models use the same short name *)
 Definition hist_step := History.step.
+Definition clap_accepts := accepts gen_globals gen_cli.
 
 Extraction Language OCaml.
 Extraction "model.ml"
@@ -19,4 +20,5 @@ Extraction "model.ml"
   Lock.exec1 Lock.init Lock.in_critical Lock.holders
   undo_core undo_steps rewrite_headers rewrite_headers_old diffy_body split_lines
   crash_prefix apply_core spec_apply no_fault one_fault user_view fs_eqb sort_renames final_path
+  clap_accepts all_opts gen_builders
   gen_acronyms gen_all_styles gen_default_styles gen_vm_core_default gen_vm_scanner_default.
